@@ -197,9 +197,10 @@ func (z *Zipper) matchTerminators() {
 // through exchanged branches (`if a > b { return x }; return y` against `if a > b { return y };
 // return x`) would otherwise have every instruction matched and be reported as preserved.
 // Blocks correspond when their terminators were matched; a matched pair must then sit in
-// corresponding blocks, the successors of a matched terminator must correspond position by
-// position, and so must the incoming edges of a matched phi. Pairs that fail are unmatched and
-// show up in the added/removed lists.
+// corresponding blocks and in the same relative order as the other pairs of the block, the
+// successors of a matched terminator must correspond position by position, and so must the
+// incoming edges of a matched phi. Pairs that fail are unmatched and show up in the
+// added/removed lists.
 func (z *Zipper) enforceControlFlow() {
 	blockOf := make(map[*ssa.BasicBlock]*ssa.BasicBlock)
 	for _, b := range z.oldFn.Blocks {
@@ -222,6 +223,14 @@ func (z *Zipper) enforceControlFlow() {
 		return true
 	}
 
+	// position of every instruction of the new function within its block
+	posNew := make(map[ssa.Instruction]int)
+	for _, nb := range z.newFn.Blocks {
+		for k, instr := range nb.Instrs {
+			posNew[instr] = k
+		}
+	}
+
 	var bad []ssa.Instruction
 	for bi, b := range z.oldFn.Blocks {
 		nb, ok := blockOf[b]
@@ -232,6 +241,7 @@ func (z *Zipper) enforceControlFlow() {
 			bad = append(bad, b.Instrs[len(b.Instrs)-1])
 			continue
 		}
+		last := -1 // position in nb of the latest partner that was kept
 		for idx, instr := range b.Instrs {
 			m, matched := z.instrMap[instr]
 			if !matched {
@@ -240,11 +250,18 @@ func (z *Zipper) enforceControlFlow() {
 			switch {
 			case m.Block() != nb:
 				bad = append(bad, instr)
+			case posNew[m] < last:
+				// matched instructions keep their order within a block: calls, stores, loads and
+				// anything that can panic are not interchangeable (`note(a); mark(b)` against
+				// `mark(b); note(a)`)
+				bad = append(bad, instr)
 			case idx == len(b.Instrs)-1 && !edgesCorrespond(b.Succs, nb.Succs):
 				bad = append(bad, instr)
 			default:
 				if _, isPhi := instr.(*ssa.Phi); isPhi && !edgesCorrespond(b.Preds, nb.Preds) {
 					bad = append(bad, instr)
+				} else {
+					last = posNew[m]
 				}
 			}
 		}
